@@ -45,7 +45,7 @@ def main():
                 elif rc != 0:
                     det.append(p + '(broken rc=%d)' % rc)
         finally:
-            sh('git -C /repo checkout -- .')
+            sh('git -C /repo checkout -- . && git -C /repo clean -fdq -- src')
         if update:
             meta['checks'] = res
             meta['detected_by'] = [p for p, r in res.items() if r['exit'] == 1]
